@@ -1,13 +1,17 @@
 import json, os
-import codec, httpdrv
+import codec, httpdrv, rootmode, anymode
 from codecmode import MODELLED
 from generic import run_check
 from lib import sh, env_go, Broken
 
 
 def main(tier, seed, replay):
+    state = {}
+
     def build(work):
         exe, schema = codec.build_driver(work)
+        state["exe"] = exe
+        state["env"] = dict(VERIF_SCHEMA=schema)
         return exe, dict(VERIF_SCHEMA=schema, VERIF_MODE="c06")
 
     def post(run, rep, out):
@@ -27,19 +31,24 @@ def main(tier, seed, replay):
         run.cov["client_level"] = dict(evaluations=hrep["evaluations"], distinct_nontrivial=hrep["distinct_nontrivial"],
                                        rule=hrep["rule"], input_distribution=hrep["distribution"], samples=hrep["samples"][:3])
         run.log("client level: %d evaluations, %d oracle failures" % (hrep["evaluations"], len(hrep["failures"])))
+        # the UNTYPED reader (NewInterfaceReader): model Codec/AnyReader.v, Corr/AnyCorr.v, Props/C06_any.v
+        anymode.any_post(state)(run, rep, out)
+        # ROOT module generation: the same mutated documents against the root readers / root bindings
+        rootmode.run_root(run, "c06", tier, seed)
 
     codec.write_fam_env()
     mods = ["Props.C06"]
     if os.path.exists(os.path.join(os.path.dirname(os.path.dirname(os.path.abspath(__file__))), "coq", "Props", "C06_ror2.v")):
         mods.append("Props.C06_ror2")
+    mods.append(anymode.ANY_PROP)
     return run_check(
         "C06", tier, seed, replay,
         tables=["TablesCodec"],
-        model_targets=["Corr/CodecCorr.vo"],
+        model_targets=["Corr/CodecCorr.vo", "Corr/AnyCorr.vo"],
         prop_module=mods,
         driver="codecdrv", build=build, post=post,
         corr_name="corr:missing-fields (model decoders vs the readers on mutated documents: error class, field set, partial value)",
-        trusted=MODELLED + ["the untyped reader and the generated client (lenient / strict) are decided by the property oracle on the implementation"],
-        assume=[],
+        trusted=MODELLED + anymode.ANY_TRUSTED + ["the generated client (lenient / strict) is decided by the property oracle on the implementation"],
+        assume=anymode.ANY_ASSUME,
         coqchk_modules=["GR." + m for m in mods],
     )
